@@ -30,6 +30,8 @@ class Numeric:
         install_partitions(self.I)
         self.I.agg_hooks.append(self._agg_hook)
         self.I.panic_hooks.append(self._panic_hook)
+        self.I.return_hooks.append(self._return_hook)
+        self.pending_o2 = []
         self.panics = {}        # entry label -> [(cfg index, state, cause)]
         self.cur_cfg = 0
         self.results = {}       # entry label -> [(st, retval)]
@@ -41,14 +43,40 @@ class Numeric:
 
     # ------------------------------------------------------------------ hooks
     def _caller_site(self):
-        """(function, call-site ordinal key) of the innermost frame outside errors::"""
+        """(function, call site into errors::, stack depth of that function's frame) of the innermost frame outside errors::"""
         st = self.I.stack
         for i in range(len(st) - 1, -1, -1):
             fn, site = st[i]
             if not fn.startswith('errors::'):
                 nxt = st[i + 1][1] if i + 1 < len(st) else None
-                return fn, nxt
-        return None, None
+                j = i
+                while j > 0 and '::{closure' in st[j][0]:
+                    j -= 1          # a guard inside a closure belongs to the enclosing function
+                return st[j][0], nxt, j
+        return None, None, 0
+
+    def _return_hook(self, I, fn, depth, results):
+        """F3/O2, per invocation: when the function that owns a guard returns Ok, the guarded value lies inside
+        the range its message states (checked against the results of this very invocation)"""
+        if not self.pending_o2:
+            return
+        keep = []
+        for p in self.pending_o2:
+            if p['depth'] > depth:
+                continue            # frame already gone
+            if p['depth'] < depth or p['fn'] != fn:
+                keep.append(p)
+                continue
+            for st, rv in results:
+                is_ok = True
+                if rv is not None and rv[0] == 'e' and rv[1].endswith('Result'):
+                    is_ok = set(rv[2]) == {0}
+                if not is_ok:
+                    continue
+                l, h = D.get_iv(st, p['vid'])
+                ok2 = p['min'][0] <= l and h <= p['max'][1]
+                I.record(p['o'], ok2, st, f'O2: a value in [{l}, {h}] is accepted by {fn} but the message states [{p["min"][0]}, {p["max"][1]}]')
+        self.pending_o2 = keep
 
     def _agg_hook(self, I, st, path, variant, ops, site):
         fn, bb, si, span = site
@@ -74,7 +102,7 @@ class Numeric:
 
     def _oor(self, I, st, fn, bb, si, span, ops):
         name, mn, mx, val, custom, cond = ops
-        cfn, csite = self._caller_site()
+        cfn, csite, cdepth = self._caller_site()
         if csite is not None and isinstance(csite, dict):
             o = I.site(csite['fn'], 'OOR', csite['callee'], csite['bb'], -1, csite.get('span'))
         else:
@@ -97,8 +125,17 @@ class Numeric:
         I.record(o, ok1, st, f'O1: rejected value in [{vl}, {vh}] is not excluded by the stated range [{l1}..{h1}, {l2}..{h2}]')
         info = self.oor_sites.setdefault(o.key, {'exempt': False, 'name': self._lit(name), 'checks': []})
         conditional = cond[0] == 'e' and 1 in cond[2]
-        if 'checks' in info:
-            info['checks'].append((I.cur_entry, val[1], (l1, h1), (l2, h2), conditional, o))
+        if conditional and cond[2][1]:
+            # a condition text that is a fixed literal ("because unit is Hour") does not depend on other arguments
+            from .models import strv_of
+            sv = strv_of(I, st, cond[2][1][0])
+            if sv is not None and sv.lits is not None and len(sv.lits) == 1:
+                conditional = False
+        info['conditional'] = conditional
+        if not conditional and val[1] not in D.CONSTVAL and cfn is not None:
+            key = (cfn, cdepth, val[1], o.key)
+            if not any(p['k'] == key for p in self.pending_o2):
+                self.pending_o2.append({'k': key, 'fn': cfn, 'depth': cdepth, 'vid': val[1], 'min': (l1, h1), 'max': (l2, h2), 'o': o})
 
     def _lit(self, v):
         if v[0] == 'str' and v[1].lits:
@@ -139,21 +176,8 @@ class Numeric:
 
     # ------------------------------------------------------------------ O2
     def check_o2(self):
-        """F3/O2: on every Ok exit of the entry the accepted value lies inside the range the message states"""
-        I = self.I
-        for key, info in self.oor_sites.items():
-            for (entry, vid, mn, mx, conditional, o) in info.get('checks', []):
-                if conditional or vid in D.TERM or vid in D.CONSTVAL:
-                    continue
-                for st, rv in self.flat(entry):
-                    if rv[0] == 'e' and rv[1].endswith('Result') and 0 in rv[2]:
-                        # split: states where the result may be Ok
-                        l, h = D.get_iv(st, vid)
-                        ok2 = mn[0] <= l and h <= mx[1]
-                        if set(rv[2]) != {0}:
-                            continue
-                        I.cur_entry = entry
-                        I.record(o, ok2, st, f'O2: a value in [{l}, {h}] is accepted but the message states [{mn[0]}, {mx[1]}]')
+        """O2 is checked per invocation by _return_hook; nothing left to do at the end"""
+        self.pending_o2 = []
 
     # ------------------------------------------------------------------ judging
     def judge(self, kinds=('ARITH', 'BOUNDS', 'CAST', 'UNWRAP', 'PANIC', 'STDPRE', 'INV', 'OOR'), allowed_causes=(), scope=None,
